@@ -135,7 +135,7 @@ class IHarness(kc.Harness):
         except EmptySchedule:
             raise
         except StopSimulation:
-            self._x("step-exc", how="stop")          # an `until` callback ended the step: later callbacks were not called
+            self._x("step-exc", how="stop")          # run(until=...) ends here; the repaired kernel raises it after the callback loop
             raise
         except kc.HarnessAbort:
             raise
@@ -540,6 +540,7 @@ def gen_s3(rng):
                 tgt, due = w.slot, getattr(w, "due", None)
                 b.tags.add("s3:join-target")
         V.due = due
+        V.tgt = tgt
         reaction = rng.choice(["ignore", "retry", "elsewhere", "return", "raise", "prop", "rewait", "ignore", "retry"])
         lbl, dst = b.newlbl(), V.newl()
         if reaction == "retry":
@@ -602,7 +603,11 @@ def gen_s3(rng):
             D = F(0)
         else:
             D = rng.choice(LATTICE)
-        if D > 0 or rng.random() < 0.5:
+        if tv.tgt[0] == "G" and rng.random() < 0.3:
+            # the interrupter waits for the very event its victim waits for: both are resumed in ONE step, in waiting order
+            I.wait(tv.tgt, "catch")
+            b.tags.add("s3:interrupter-in-victims-callback-list")
+        elif D > 0 or rng.random() < 0.5:
             I.sleep(D, "catch", parts=rng.choice([1, 1, 2]))
         burst = rng.choice([1, 1, 1, 2, 3, 3])
         if burst > 1:
@@ -743,7 +748,6 @@ def analyse(case, obs):
     accepted = {}                      # victim -> [rec...]
     outcomes = {}                      # evid -> [(who, outcome)]
     conds = {}                         # evid -> {"all","ops","count","decided","detached","exempt"}
-    item_kind = {}
     until_evs = set()
     cur = None                         # the step being processed
     stale_active = False
@@ -811,6 +815,9 @@ def analyse(case, obs):
         if rec is not None and c.get("raised") is not None:
             say("interrupt-to-dead", f"processing the pending interrupt #{rec['seq']} of the finished process {rec['victim']} "
                 f"raised {c['raised']} (it must be discarded without error)")
+        if rec is not None and c["nlogs"]:
+            say("interrupt-to-dead", f"processing the pending interrupt #{rec['seq']} of the finished process {rec['victim']} "
+                f"resumed somebody ({c['nlogs']} log entries in that step); it must have no effect")
         w = c.get("waiters")
         cut = c.get("aborted") or c.get("cut")
         if w and cut:
@@ -820,6 +827,13 @@ def analyse(case, obs):
             p = sorted(w)[0]
             say("waiter-not-resumed", f"event {c['evid']} was processed at {c['now']} while process {p} was suspended on it "
                 f"(yield {proc[p]['lbl']}), but the process was not resumed in that step")
+        # a failure nobody is there to handle must crash the step: detaching a victim from its target must not defuse it
+        if ("anywaiter" in c and not c["anywaiter"] and not c.get("conds") and not cut and ev_ok(c["evid"]) is False
+                and c["evid"] not in until_evs and not c["nlogs"]):
+            st["unhandled-failure-steps"] += 1
+            if c.get("raised") is None:
+                say("failure-swallowed", f"the failed event {c['evid']} ({ev_kind(c['evid'])}) was processed at {c['now']} with no "
+                    f"process waiting for it and no condition over it, yet step() raised nothing (its failure was lost)")
         for (cc, mult) in c.get("conds", []):
             cd = conds[cc]
             if cut:
@@ -843,8 +857,6 @@ def analyse(case, obs):
                         say("waiter-not-resumed", f"process {p} yielded the already processed event {s['tgt']} at yield "
                             f"{s['lbl']} and did not continue at once")
                         s["exempt"] = True
-                if e in until_evs:
-                    cur["cut"] = True            # a StopSimulation callback sits among its callbacks: those after it are not called
                 if e < 0 or processed[e] > 1 or e in misused_ev or not aligned:
                     cur["skip"] = True
                     for cd in conds.values():
@@ -896,6 +908,8 @@ def analyse(case, obs):
                 else:
                     cur["waiters"] = {p for p, s in proc.items()
                                       if s["st"] == "susp" and s["tgt"] == e and not s["imm"] and not s["exempt"]}
+                    cur["anywaiter"] = any(s["st"] in ("susp", "unknown", "broken") and s["tgt"] in (e, None)
+                                           for s in proc.values())
                     cur["klo"], cur["khi"] = klo, khi
                     cur["conds"] = [(c, cd["ops"].count(e)) for c, cd in conds.items() if e in cd["ops"]]
                     if e in conds:
@@ -949,9 +963,17 @@ def analyse(case, obs):
                     elif cur is not None and cur.get("skip"):
                         pass
                     else:
-                        say("resumed-by-old-target", f"process {pid}, suspended at yield {lbl} on event {s['tgt']}, was resumed "
-                            f"with {v} at {t[2]} by the processing of event {cur['evid'] if cur else None}, which it is not "
-                            f"waiting for")
+                        r0 = intr_by_evid.get(cur["evid"]) if cur is not None else None
+                        if is_intr and r0 is not None and r0["victim"] == pid and r0.get("delivered"):
+                            say("interrupt-duplicated", f"process {pid} received interrupt #{r0['seq']} (cause {r0['cause']}) "
+                                f"a second time, at yield {lbl} at {t[2]}")
+                        elif is_intr and r0 is not None:
+                            say("spurious-interrupt", f"process {pid} received {v} at yield {lbl} at {t[2]} while interrupt "
+                                f"#{r0['seq']} aimed at process {r0['victim']} was processed")
+                        else:
+                            say("resumed-by-old-target", f"process {pid}, suspended at yield {lbl} on event {s['tgt']}, was "
+                                f"resumed with {v} at {t[2]} by the processing of event {cur['evid'] if cur else None}, which "
+                                f"it is not waiting for")
                         s["exempt"] = True
                         continue
                     if src_ev is not None and src_ev >= 0:
@@ -1013,13 +1035,12 @@ def analyse(case, obs):
                 if processed[o] > 0:
                     cond_operand_processed(c, cd, o, x["kl"], x["kl1"], f"at creation (operand {o} already processed)")
         elif k == "item":
-            item_kind[x["i"]] = x["what"]
             if x.get("until") is not None:
                 until_evs.add(x["until"])
         elif k == "step-exc":
             if cur is not None:
                 if x["how"] == "stop":
-                    cur["cut"] = True
+                    pass                         # StopSimulation is raised after the callback loop (repaired kernel): nothing is cut
                 else:
                     exn = x["exn"]
                     cur["raised"] = exn
@@ -1161,6 +1182,10 @@ class C04(Prop):
                    "one Environment (no mixing of environments); Event.trigger (unused public method) is not modelled",
                    "monitor clauses are not applied to processes whose Process event was triggered by hand (succeed/fail on a "
                    "live Process), to processes that yielded a non-event, nor after env.active_process was left stale by such a crash"]
+    assumptions += ["theorems: an execution is followed up to the first step whose callback loop is left by an exception escaping "
+                    "from a callback (invalid yield, a forged event id) or by out-of-fuel (step_clean); RFuel/RBroken results are excluded",
+                    "interrupt_delivery assumes the victim was not made to wait for the Interruption event aimed at itself (the "
+                    "kernel never hands that object out; an automaton of the model could forge its id)"]
     partial = []
 
     def gen_case(self, rng, tier):
